@@ -146,7 +146,7 @@ func c09Requests(p *Program, t *T) []c09Req {
 }
 
 func runC09(e *Env) {
-	e.Rule = "registration programs (as C04) whose handlers are armed by request headers: the panicking request designates one handler (any global/group/route middleware, main handler, custom NotFound/NotAllowed handler; before or after its Next()) or the OnError handler, a panic value (string, error, int, struct) and an action before the panic (nothing, SetStatus, body write = committed, AddError); OnPanic hook absent / does nothing / status only / status+body / echoes the recovered value; history = healthy requests, the panicking one, an overlapping pair (a second request served by the same router while the first is parked inside a handler) and 3..10 further requests of all kinds on the same router (same pooled contexts). Oracle: hook present => no escape, hook ran once with the same value under CTXRecoverResult, no handler entered after the panic, writer log == C08 state machine over (ops before the panic, hook ops, end of request); hook absent => the same value propagates; always: every later request's outcome equals the outcome on a freshly built twin router. Also the in-chain recover middleware pkg/handlers.PanicsHandler: no escape, 500, healthy afterwards. Non-trivial: every history (each contains a panic); distinct by (program, plan). A third of the hooks serve another request on the same router before they answer (it must get its own context and behave as on a twin); a quarter of the panicking requests carry a cancelled or expired request context."
+	e.Rule = "registration programs (as C04) whose handlers are armed by request headers: the panicking request designates one handler (any global/group/route middleware, main handler, custom NotFound/NotAllowed handler; before or after its Next()) or the OnError handler, a panic value (string, error, int, struct) and an action before the panic (nothing, SetStatus, body write = committed, AddError); OnPanic hook absent / does nothing / status only / status+body / echoes the recovered value; history = healthy requests, the panicking one, an overlapping pair (a second request served by the same router while the first is parked inside a handler) and 3..10 further requests of all kinds on the same router (same pooled contexts). Oracle: hook present => no escape, hook ran once with the same value under CTXRecoverResult, no handler entered after the panic, writer log == C08 state machine over (ops before the panic, hook ops, end of request); hook absent => the same value propagates; always: every later request's outcome equals the outcome on a freshly built twin router. Also the in-chain recover middleware pkg/handlers.PanicsHandler: no escape, 500, healthy afterwards. Non-trivial: every history (each contains a panic); distinct by (program, plan). A third of the hooks serve another request on the same router before they answer (it must get its own context and behave as on a twin); a quarter of the panicking requests carry a cancelled or expired request context. More than half of the routers have an OnError handler that answers with an error page (after a panic it must not run, whatever errors were collected before)."
 	e.Assumptions = []string{
 		"panic values are comparable (==)",
 		"the statement's 'no later handler runs' is checked for the OnPanic hook only; PanicsHandler lets the outer loop continue by design and is only checked for containment, status and router health",
@@ -255,6 +255,7 @@ func c09Case(t *T) {
 	hookKind := pick(r, []string{"absent", "nothing", "status", "status+body", "echo", "status", "status+body", "abort-with-status"})
 	usePanicsHandler := hookKind == "absent" && chance(r, 1, 4)
 	onErrorPanics := chance(r, 1, 8)
+	onErrorInstalled := onErrorPanics || chance(r, 1, 2) // an OnError handler that answers with an error page
 	// pkg/handlers.Timeout as the outermost middleware (its own deadline never passes; a request whose
 	// context is already past its deadline makes it record 504 while the panic unwinds)
 	withTimeout := hookKind != "absent" && chance(r, 1, 4)
@@ -264,6 +265,7 @@ func c09Case(t *T) {
 		d["hook"] = hookKind
 		d["PanicsHandler_first"] = usePanicsHandler
 		d["OnError_panics"] = onErrorPanics
+		d["OnError_handler_installed"] = onErrorInstalled
 		d["Timeout_middleware_first"] = withTimeout
 		d["plan"] = plan
 		d["history"] = histDesc
@@ -280,12 +282,16 @@ func c09Case(t *T) {
 				rt.Use(handlers.Timeout(time.Hour))
 			}
 		})
-		if onErrorPanics {
+		if onErrorInstalled {
 			router.OnError = func(c *rux.Context) {
-				if c.Req.Header.Get("X-Panic") == "onerror" {
+				if onErrorPanics && c.Req.Header.Get("X-Panic") == "onerror" {
 					recOf(c).Ev("panic(onerror)")
 					panic(panicValue(c.Req.Header.Get("X-Panic-Val")))
 				}
+				// the application's error page: it reports the collected errors
+				recOf(c).Ev("onerror-handler(%d errors)", len(c.Errors))
+				c.SetStatus(400)
+				_, _ = c.Resp.Write([]byte("errors-reported"))
 			}
 		}
 		switch hookKind {
